@@ -114,10 +114,12 @@ type c15Case struct {
 	Abort    bool // the origin breaks the response off after the first of its writes
 	FlushOne bool // flush once, after the first write only
 	Status2  int  // second, superfluous WriteHeader
+	Trailer  bool // the origin announces and sends a trailer
+	Empty    bool // zero-length first write
 }
 
 func (c c15Case) String() string {
-	return fmt.Sprintf("pos=%s level=%d min=%d AE=%q type=%q size=%d payload=%s status=%d declare=%v %s writes=%d flushmid=%v interim=%d abort=%v flushone=%v status2=%d", c.Pos, c.Level, c.Min, c.AE, c.CType, c.Size, c.Payload, c.Status, c.Declare, c.Method, c.Writes, c.FlushMid, c.Interim, c.Abort, c.FlushOne, c.Status2)
+	return fmt.Sprintf("pos=%s level=%d min=%d AE=%q type=%q size=%d payload=%s status=%d declare=%v %s writes=%d flushmid=%v interim=%d abort=%v flushone=%v status2=%d trailer=%v emptywrite=%v", c.Pos, c.Level, c.Min, c.AE, c.CType, c.Size, c.Payload, c.Status, c.Declare, c.Method, c.Writes, c.FlushMid, c.Interim, c.Abort, c.FlushOne, c.Status2, c.Trailer, c.Empty)
 }
 
 // origin returns the handler program and the entity the origin serves (body as the origin
@@ -162,6 +164,7 @@ func (c c15Case) origin() (*hprog, []byte, bool) {
 		p.FlushAfter = 1
 	}
 	p.Status2 = c.Status2
+	p.Trailer, p.EmptyWrite = c.Trailer, c.Empty
 	return p, plain, pre
 }
 
@@ -267,6 +270,9 @@ func c15Judge(c c15Case, with, without wire.Response, plain []byte, pre bool) (s
 	}
 	if !bodyExpected && len(with.Body) != 0 {
 		return "C15/body-on-bodiless-response", fmt.Sprintf("%d body bytes on a response that has none", len(with.Body))
+	}
+	if fmt.Sprint(with.Trailer) != fmt.Sprint(without.Trailer) {
+		return "C15/trailer-changed", fmt.Sprintf("the origin's trailer %v arrives as %v", without.Trailer, with.Trailer)
 	}
 	recoded := with.Get("Content-Encoding") != without.Get("Content-Encoding") || !bytes.Equal(with.Body, without.Body)
 	if recoded {
@@ -424,6 +430,26 @@ func c15Cases(th bool) []c15Case {
 			}
 			for _, ae := range []string{"gzip", "-"} {
 				out = append(out, c15Case{Pos: "gzip", Level: 5, Min: 64, AE: ae, CType: "text/html", Size: sz, Payload: "text", Status: st[0], Status2: st[1], Method: "GET", Writes: 1})
+			}
+		}
+	}
+	// response trailers and a zero-length first write
+	for _, sz := range []int{0, 10, 70, 5000} {
+		for _, st := range []int{0, 200, 404} {
+			for _, ae := range []string{"gzip", "-"} {
+				for _, fo := range []bool{false, true} {
+					if fo && sz < 70 {
+						continue
+					}
+					w := 1
+					if fo {
+						w = 2
+					}
+					if sz > 0 { // a trailer needs a body to travel behind
+						out = append(out, c15Case{Pos: "gzip", Level: 5, Min: 64, AE: ae, CType: "text/html", Size: sz, Payload: "text", Status: st, Method: "GET", Writes: w, FlushOne: fo, Trailer: true})
+					}
+					out = append(out, c15Case{Pos: "gzip", Level: 5, Min: 64, AE: ae, CType: "text/html", Size: sz, Payload: "text", Status: st, Method: "GET", Writes: w, FlushOne: fo, Empty: true})
+				}
 			}
 		}
 	}
